@@ -353,6 +353,64 @@ func C05(rep *ev.Reporter, tier string) {
 			rep.Sample(map[string]interface{}{"case": id, "first_rule": grl.PrintRule(rules[0], st.st), "last_rule": grl.PrintRule(rules[len(rules)-1], st.st)})
 		}
 	})
+	// ---- one knowledge base holding X, (X), ((X)), !(X), !((X)), !X-forms of the SAME X ----
+	var mixN int64
+	{
+		var xs []c05Expr
+		for _, x := range exprs {
+			if x.val.K == ref.VBool && (x.note == "binary" || x.note == "leaf") {
+				xs = append(xs, x)
+			}
+		}
+		stepX := 1
+		if tier == "quick" {
+			stepX = 9
+		}
+		var picks []c05Expr
+		for i := 0; i < len(xs); i += stepX {
+			picks = append(picks, xs[i])
+		}
+		ParallelEach(len(picks), func(pi int) {
+			if bud.Over() {
+				return
+			}
+			x := picks[pi]
+			id := fmt.Sprintf("c05/paren-negation-mix/%d", pi)
+			if rep.ReplayFilter != "" && !strings.HasPrefix(rep.ReplayFilter, id) {
+				return
+			}
+			forms := []grl.Expr{&grl.Paren{X: x.e}, &grl.Not{X: &grl.Paren{X: x.e}}, &grl.Paren{X: &grl.Paren{X: x.e}}, x.e, &grl.Not{X: &grl.Paren{X: &grl.Paren{X: x.e}}},
+				&grl.Bin{Op: "||", L: &grl.Not{X: &grl.Paren{X: x.e}}, R: &grl.Paren{X: x.e}}}
+			for _, order := range [][]int{{0, 1, 2, 3, 4, 5}, {1, 0, 4, 2, 3, 5}, {5, 3, 1, 0, 2, 4}} {
+				var rules []*grl.Rule
+				for k, fi := range order {
+					r := &grl.Rule{Name: fmt.Sprintf("e%d", k), When: grl.E(fmt.Sprintf("K.K == %d", k))}
+					r.Then = append(r.Then, grl.Action{Target: grl.E("K.B").(*grl.Ref), Op: "=", RHS: forms[fi]}, grl.A("K.K = K.K + 1"))
+					rules = append(rules, r)
+				}
+				prog := hx.NewProgram(rules, grl.Style{PrecTab: table})
+				b, err := hx.Build(prog)
+				if err != nil {
+					continue // rejections are reported by the main pass
+				}
+				tr := hx.Run(b, c05World(), hx.RunOpts{MaxCycle: uint64(len(rules) + 2)})
+				atomic.AddInt64(&mixN, int64(len(rules)))
+				for _, cy := range tr.Cycles {
+					if cy.Exec == "" || cy.ModelErr != nil || cy.ModelUnsupported {
+						continue
+					}
+					if cy.PostChecked && !cy.PostOK {
+						idx, _ := strconv.Atoi(cy.Exec[1:])
+						mu.Lock()
+						rep.Violation("C05:value-depends-on-sibling-parenthesised-or-negated-form", fmt.Sprintf("in a knowledge base that also holds the other parenthesised / negated forms of the same expression, `%s` does not have its own value\n%s\n  grl: %s", grl.Print(forms[order[idx]], grl.Style{PrecTab: table}), cy.PostDiff, strings.ReplaceAll(prog.Text, "\n", "\n       ")),
+							map[string]interface{}{"case": fmt.Sprintf("%s#%d", id, idx), "grl": prog.Text})
+						mu.Unlock()
+					}
+				}
+			}
+		})
+	}
+	rep.Coverage["paren_negation_mix_evaluations"] = mixN
 	// ---- booleans as rule conditions (candidate flag through FetchMatchingRules) ----
 	var conds []c05Expr
 	for _, x := range exprs {
@@ -422,7 +480,7 @@ func C05(rep *ev.Reporter, tier string) {
 		rep.Exhaustive = false
 		rep.Coverage["caps_hit"] = "time budget"
 	}
-	rep.Coverage["rule"] = fmt.Sprintf("every well-typed expression of depth <=1 over %d leaves (int/uint/float/string/bool literals and fields, fact methods incl. variadic, string/array/map built-ins, selectors) x all 15 binary operators, !atom and !(expr); every depth-2 tree of both shapes over every operator pair and every leaf triple of a %d-leaf alphabet (thorough: depth-3 chains on 5 leaves); each kept only if the reference evaluator finds it well-typed and free of division by zero / NaN / Inf; each printed minimally parenthesised ACCORDING TO THE PUBLISHED TABLE (parsed from docs/en/GRL_en.md of the working tree), fully parenthesised, doubly parenthesised with upper-case keywords, tight with mixed-case keywords, with line comments and with block comments between tokens; value observed through a typed sink field assignment (30 gated rules per knowledge base, lockstep post-state comparison) and, for booleans, as candidate flag through FetchMatchingRules; literal spellings incl. every example of docs/en/GRL_Literals_en.md. states = distinct expressions, transitions = expression printings evaluated by the engine. Non-trivial: a depth>=2 expression whose minimal printing has no parentheses (the grouping is decided by precedence/associativity alone).", len(leaves), len(chainLeaves))
+	rep.Coverage["rule"] = fmt.Sprintf("every well-typed expression of depth <=1 over %d leaves (int/uint/float/string/bool literals and fields, fact methods incl. variadic, string/array/map built-ins, selectors) x all 15 binary operators, !atom and !(expr); every depth-2 tree of both shapes over every operator pair and every leaf triple of a %d-leaf alphabet (thorough: depth-3 chains on 5 leaves); each kept only if the reference evaluator finds it well-typed and free of division by zero / NaN / Inf; each printed minimally parenthesised ACCORDING TO THE PUBLISHED TABLE (parsed from docs/en/GRL_en.md of the working tree), fully parenthesised, doubly parenthesised with upper-case keywords, tight with mixed-case keywords, with line comments and with block comments between tokens; value observed through a typed sink field assignment (30 gated rules per knowledge base, lockstep post-state comparison) and, for booleans, as candidate flag through FetchMatchingRules; literal spellings incl. every example of docs/en/GRL_Literals_en.md; and, for boolean expressions X, knowledge bases holding X, (X), ((X)), !(X), !((X)) and !(X) || (X) together in 3 textual orders (redundant parentheses and negation must keep their own value next to each other). states = distinct expressions, transitions = expression printings evaluated by the engine. Non-trivial: a depth>=2 expression whose minimal printing has no parentheses (the grouping is decided by precedence/associativity alone).", len(leaves), len(chainLeaves))
 	rep.Assumptions = append(rep.Assumptions, "string + float / time rendering and negation of non-booleans are undocumented and not judged", "operand values are fixed (one fact state); the alphabets are chosen so that both groupings of every operator pair differ in value or typing for at least one leaf triple")
 }
 
